@@ -491,24 +491,17 @@ fn limits_family(run: &Run, eng: &Eng) {
 /// of length <= 3 over an alphabet of ASCII, newline, UTF-8 lead, continuation
 /// and invalid bytes: "byte-oriented" means a match may start and end between
 /// any two bytes, including inside what would be a UTF-8 sequence.
-fn regex_empty_family(run: &Run, eng: &Eng) {
+fn regex_table_family(run: &Run, eng: &Eng, fam: &'static str, patterns: &[&str], alpha: &[u8], maxlen: usize, sig: &str) {
     let field = eng.scheme.get_field("str_m").unwrap();
-    const PATTERNS: &[&str] = &[
-        "", "^", "$", "^$", "a*", "^a*", "^a?", "a*$", "^a*$", "^(a|)", "(?:a|)$", "(a|b)*", "^(www\\.)?", "[^a]*",
-        "^[^a]*$", ".*", "^.*$", ".?", "^.?$", "^.?.?$", "\\x80*", "^\\x80", "^\\xbf?a", "\\xc3?$", "^[\\x80-\\xbf]*",
-        "^[\\x80-\\xbf]*$", "^[^\\x80]", "a?\\xa9?", "^\\xc3\\xa9", "^\\xc3", "\\xa9$", "^(?:\\xc3|)\\xa9", "^.\\xa9",
-        "^[\\x00-\\xff]", "^[\\x00-\\xff]?$", "(^|a)\\x80", "\\x80($|a)",
-    ];
-    const ALPHA: &[u8] = &[b'a', b'\n', 0x80, 0xa9, 0xbf, 0xc3, 0xff];
     let mut values: Vec<Vec<u8>> = vec![vec![]];
-    for len in 1..=3usize {
+    for len in 1..=maxlen {
         let mut idx = vec![0usize; len];
         loop {
-            values.push(idx.iter().map(|k| ALPHA[*k]).collect());
+            values.push(idx.iter().map(|k| alpha[*k]).collect());
             let mut p = 0;
             while p < len {
                 idx[p] += 1;
-                if idx[p] < ALPHA.len() {
+                if idx[p] < alpha.len() {
                     break;
                 }
                 idx[p] = 0;
@@ -519,9 +512,9 @@ fn regex_empty_family(run: &Run, eng: &Eng) {
             }
         }
     }
-    run.exhaustive("regex-empty-matches", true);
-    run.parallel("regex-empty-matches", PATTERNS.len() as u64, |i, l| {
-        let pattern = PATTERNS[i as usize];
+    run.exhaustive(fam, true);
+    run.parallel(fam, patterns.len() as u64, |i, l| {
+        let pattern = patterns[i as usize];
         let Some(re) = regex_parse(pattern) else {
             run.inconclusive(format!("reference matcher cannot parse the fixed pattern {:?}", pattern));
             return;
@@ -538,9 +531,9 @@ fn regex_empty_family(run: &Run, eng: &Eng) {
             Ok(Ok(a)) => a,
             other => {
                 run.violation(
-                    "C11/valid-regex-rejected/empty-matching",
+                    &format!("C11/valid-regex-rejected/{}", sig),
                     "regex-validity",
-                    "regex-empty-matches",
+                    fam,
                     i,
                     json!({"filter": text, "outcome": format!("{:?}", other.map(|r| r.map(|_| ())))}),
                 );
@@ -560,9 +553,9 @@ fn regex_empty_family(run: &Run, eng: &Eng) {
             match guard(|| filter.execute(&ctx)) {
                 Ok(Ok(b)) if b == want => l.count(if b { "regex_matches" } else { "regex_non_matches" }),
                 other => run.violation(
-                    "C11/regex-wrong-answer/empty-matching-pattern",
+                    &format!("C11/regex-wrong-answer/{}", sig),
                     "regex-matcher",
-                    "regex-empty-matches",
+                    fam,
                     i,
                     json!({"filter": text, "pattern": pattern, "value": show_bytes(v), "expected": want,
                            "got": format!("{:?}", other)}),
@@ -570,7 +563,7 @@ fn regex_empty_family(run: &Run, eng: &Eng) {
             }
         }
         run.distinct(hash_str(pattern));
-        run.sample("regex-empty-matches", 3, || json!({"pattern": pattern, "values": values.len()}));
+        run.sample(fam, 3, || json!({"pattern": pattern, "values": values.len()}));
     });
 }
 
@@ -578,6 +571,36 @@ pub fn run(run: &Run) {
     let eng = Eng::new(scalar_env(true));
     wildcard_family(run, &eng);
     regex_family(run, &eng);
-    regex_empty_family(run, &eng);
+    // patterns that can match the empty string, anchored and not, on every value of
+    // length <= 3 over ASCII, newline, UTF-8 lead, continuation and invalid bytes
+    regex_table_family(
+        run,
+        &eng,
+        "regex-empty-matches",
+        &[
+            "", "^", "$", "^$", "a*", "^a*", "^a?", "a*$", "^a*$", "^(a|)", "(?:a|)$", "(a|b)*", "^(www\\.)?", "[^a]*",
+            "^[^a]*$", ".*", "^.*$", ".?", "^.?$", "^.?.?$", "\\x80*", "^\\x80", "^\\xbf?a", "\\xc3?$", "^[\\x80-\\xbf]*",
+            "^[\\x80-\\xbf]*$", "^[^\\x80]", "a?\\xa9?", "^\\xc3\\xa9", "^\\xc3", "\\xa9$", "^(?:\\xc3|)\\xa9", "^.\\xa9",
+            "^[\\x00-\\xff]", "^[\\x00-\\xff]?$", "(^|a)\\x80", "\\x80($|a)",
+        ],
+        &[b'a', b'\n', 0x80, 0xa9, 0xbf, 0xc3, 0xff],
+        3,
+        "empty-matching-pattern",
+    );
+    // anchors in every position relative to alternation, groups and repetition: an
+    // anchor constrains its own branch only, the search itself is never anchored
+    regex_table_family(
+        run,
+        &eng,
+        "regex-anchors",
+        &[
+            "^a|b", "a|^b", "^a|^b", "^a|b$", "a$|b", "a$|^b", "^a$|b", "^a|b|^x", "^(a|b)", "(^a|b)", "(a|^b)", "(^a|b)x", "^ab|ba",
+            "^a|ba$", "b$|^ab", "(^a)|b", "^(a)|b", "(?:^a|b)a", "^a+|b+", "a*^b|x", "^$|b$", "^|b", "b|^", "$|^a", "a|$", "^a|", "|^a",
+            "(?:^|x)a", "a(?:$|x)", "(^a|^b)|x", "x|(^a|^b)", "^[ab]|x", "x|[ab]$", "^a.|.b$", "(?:^a|b$)|(?:x)", "^\\^|b", "\\$a|^b",
+        ],
+        &[b'a', b'b', b'x', b'\n'],
+        4,
+        "anchored-branch",
+    );
     limits_family(run, &eng);
 }
